@@ -85,8 +85,12 @@ def run : IO Unit := do
       | none => out.putStrLn "R ok"
       -- the observing call: an empty simulation with DUMP -all
       let sd := simToDump { s with stopped := none, errPending := false, simNo := 0 } []
-      for (k, n, tok) in visible sd.maps do
-        out.putStrLn s!"E {k.name} {n} {tok}"
+      match sd.stopped with
+      | some msg => out.putStrLn s!"F stop {msg}"      -- the observing call stops too: no dump is written
+      | none =>
+        out.putStrLn "F ok"
+        for (k, n, tok) in visible sd.maps do
+          out.putStrLn s!"E {k.name} {n} {tok}"
       for (tok, p) in sd.prov.reverse.drop printed do
         out.putStrLn s!"T {tok} {p}"
       printed := sd.prov.length
